@@ -157,6 +157,11 @@ type Sched struct {
 // S is the active scheduler; nil outside a run (shims then behave natively).
 var S *Sched
 
+// Progress counts scheduling steps of all schedulers of the process; a real-time
+// watchdog outside the bubble uses it to tell a run that is slow (steps keep
+// coming) from one that is stuck in code the simulator cannot preempt.
+var Progress atomic.Int64
+
 // StrategyNames lists the schedule-generation strategies.
 var StrategyNames = []string{"uniform", "sticky90", "sticky99", "lowest-first+preempt", "pct3"}
 
@@ -582,6 +587,7 @@ func (s *Sched) Run(done func() bool) Result {
 		}
 		s.lastG = g
 		s.Steps++
+		Progress.Add(1)
 		g.steps++
 		s.SiteSet[g.where]++
 		s.Logf("step g%d %s", g.ID, g.where)
